@@ -35,36 +35,6 @@ SPECIAL = nw.PRIMS
 GENERIC = [k for k in nw.KINDS if k not in nw.PRIMS]
 
 
-KNOWN_FILE = cm.VERIF / "known_findings_C09.json"
-
-
-def load_known():
-    out = {}
-    if KNOWN_FILE.exists():
-        for e in json.loads(KNOWN_FILE.read_text())["entries"]:
-            if e.get("property") == PID and e.get("status") == "finding":
-                out[e["id"]] = e
-    for e in cm.load_known(PID):
-        out[e["id"]] = e
-    glob = cm.VERIF / "known_findings.json"
-    if glob.exists():
-        fixed = {e["id"] for e in json.loads(glob.read_text())["entries"] if e.get("status") == "fixed"}
-        out = {k: v for k, v in out.items() if k not in fixed}
-    return out
-
-
-def known_id(name, res):
-    """F-N1: an accelerated Nesterov run that exhausted max_interations (returned iterations >= cap)"""
-    r = res.get(name)
-    if name in ("nesterov_full+acc", "nesterov_prim_full+acc") and r is not None and "exc" not in r \
-            and r.get("iterations", 0) >= NESTEROV_CAP:
-        return "F-N1"
-    return None
-
-
-NESTEROV_CAP = 128      # replaced at run time by the default read from the source (narrow_caps)
-
-
 def prim_ok(spec):
     return spec["kind"] in nw.PRIMS and "margin" not in spec
 
@@ -170,14 +140,14 @@ def run(tier, seed, replay=None):
     cases = []
     corpus = cm.VERIF / "corpus" / PID
     if replay:
-        c = json.loads(open(replay).read())["case"]
+        c = nb.load_case(replay)
         c = {k: v for k, v in c.items() if k in ("c1", "c2", "meta")}
         c.setdefault("meta", {})
         cases.append(c)
     else:
         if corpus.exists():
             for f in sorted(corpus.glob("*.json")):
-                c = json.loads(f.read_text())["case"]
+                c = nb.load_case(f)
                 c = {k: v for k, v in c.items() if k in ("c1", "c2", "meta")}
                 c.setdefault("meta", {})
                 cases.append(c)
@@ -185,20 +155,13 @@ def run(tier, seed, replay=None):
     for c in cases:
         c["ops"] = ops_for(c["c1"], c["c2"])
         c["meta"]["L"] = nw.scene_scale([c["c1"], c["c2"]])
+    R.cov["jit_warmup"] = nb.warm(PID)
     results = nb.run_cases(PID, cases)
     R.cov["evaluations"] = len(cases)
 
     exprs, idx = [], []
     hist = {}
     path_checks = 0
-    known = load_known()
-    known_counts = {}
-    global NESTEROV_CAP
-    try:
-        from .. import narrow_caps
-        NESTEROV_CAP = narrow_caps.read(cm.REPO)["nesterov_max_interations"]
-    except Exception as e:  # noqa
-        R.notes.append(f"caps reader failed ({e}); using max_interations = {NESTEROV_CAP}")
 
     def bump(k):
         hist[k] = hist.get(k, 0) + 1
@@ -226,7 +189,7 @@ def run(tier, seed, replay=None):
                              f"{nw.vq(ro['a'])} {nw.vq(ro['b'])} {nw._q(ro['d'])} {nw._q(tau)}")
                 idx.append((i, "orig", None))
         # ---- Nesterov values against a certified enclosure
-        vals, names, deferred = [], [], []
+        vals, names = [], []
         for key in ("nesterov_full", "nesterov_full+acc", "nesterov_distance", "nesterov_prim_full", "nesterov_prim_full+acc",
                     "nesterov_prim_distance"):
             r = byfn.get(key)
@@ -234,10 +197,6 @@ def run(tier, seed, replay=None):
                 continue
             if not math.isfinite(r["d"]):
                 R.failure(f"{key} returned a non-finite distance {r['d']!r}", dict(c1=s1, c2=s2, meta=c["meta"], result=r), site=key)
-                continue
-            kid = known_id(key, byfn)
-            if kid is not None and kid in known:
-                deferred.append((key, max(r["d"], 0.0), kid))
                 continue
             vals.append(max(r["d"], 0.0))
             names.append(key)
@@ -248,14 +207,6 @@ def run(tier, seed, replay=None):
                     and finite_pt(cand["b"]) and cand["d"] < 1e300:
                 ref = cand
                 break
-        if ref is not None:
-            for key, v, kid in deferred:
-                if not (max(0.0, ref["d"] - ENC_K * L) - TAU_K * L <= v <= ref["d"] + ENC_K * L + TAU_K * L):
-                    known_counts[kid] = known_counts.get(kid, 0) + 1
-                    R.known_finding(kid, known[kid]["what"])
-                    bump(f"{key}:known_finding:{kid}")
-                else:
-                    bump(f"{key}:cap_exhausted_but_within_tolerance")
         if vals and ref is not None:
             dj = ref["d"]
             eps = ENC_K * L
@@ -354,7 +305,6 @@ def run(tier, seed, replay=None):
     R.cov["disagreements_checked"] = rejected
     R.cov["distinct_nontrivial"] = len(distinct)
     R.cov["answer_path_checks"] = path_checks
-    R.cov["known_finding_failures"] = known_counts
     R.cov["histogram"] = dict(sorted(hist.items()))
     for c, rr in list(zip(cases, results))[:3]:
         R.sample(dict(c1=c["c1"], c2=c["c2"], meta=c["meta"],
